@@ -283,7 +283,15 @@ func decodeStructValueSlice(field reflect.Value, fieldType reflect.StructField, 
 		return nil
 	}
 
-	for _, el := range strings.Split(value, delim) {
+	var els []string
+	if delim == " " {
+		/* A blank-separated list may be folded over several lines */
+		els = strings.Fields(value)
+	} else {
+		els = strings.Split(value, delim)
+	}
+
+	for _, el := range els {
 		el = strings.Trim(el, strip)
 
 		targetValue := reflect.New(underlyingType)
